@@ -12,6 +12,7 @@ mod m_sliceiter;
 mod m_chars;
 mod m_rangeiter;
 mod m_split;
+mod m_parseint;
 
 use common::*;
 use rand::{rngs::SmallRng, SeedableRng};
@@ -29,6 +30,7 @@ fn replay_line(s: &mut Summary, v: &V) {
         "Chars" => m_chars::replay(s, v),
         "RangeIter" => m_rangeiter::replay(s, v),
         "Split" => m_split::replay(s, v),
+        "ParseInt" => m_parseint::replay(s, v),
         m => panic!("kh: unknown module {m}"),
     }
 }
@@ -83,6 +85,7 @@ fn main() {
                 "SliceIter" => m_sliceiter::record(&mut rng, n, &mut out),
                 "Chars" => m_chars::record(&mut rng, n, &mut out),
                 "Split" => m_split::record(&mut rng, n, &mut out),
+                "ParseInt" => m_parseint::record(&mut rng, n, &mut out),
                 "RangeIter-u16" => m_rangeiter::record("u16", &mut rng, n, &mut out),
                 "RangeIter-i16" => m_rangeiter::record("i16", &mut rng, n, &mut out),
                 "RangeIter-char" => m_rangeiter::record("char", &mut rng, n, &mut out),
